@@ -162,18 +162,50 @@ def restart_overlay_remove(rng):
     return ops_
 
 
+SAME_FORMS = [['f:red'], ['n:red'], [['f:red']], ['f:bold'], [['n:bold']], ['f:dul_orange'], ['h:rgb(1,2,3)'], ['r:rgb(1,2,3)'],
+              {'tuple': ['f:blue']}, ['i:31'], ['l:38,5,200'], ['f:bg_red']]
+
+
+def nested_equal_spans_then_remove(rng):
+    """Generic directed workload for equal-valued settings on nested/overlapping spans: the same settings
+    argument (in one of its spellings: AnsiFormat member, name, nested list, helper result, rgb string ...) is
+    applied twice on overlapping ranges with another setting in between, then something is removed over a
+    range whose bounds are drawn from the span boundaries."""
+    n = rng.choice([4, 5, 6])
+    text = ''.join(rng.choice('ab') for _ in range(n))
+    x = rng.choice(SAME_FORMS)
+    y = [rng.choice(CONFLICT_RICH)]
+    a1 = rng.randrange(0, n - 1)
+    b1 = rng.randint(a1 + 1, n)
+    a2 = rng.randrange(a1, b1)
+    b2 = rng.randint(a2 + 1, n)
+    ops_ = [_new(text, None, 0), _apply(0, x, a1, b1 if rng.random() < 0.7 else None, top=rng.random() < 0.8)]
+    if rng.random() < 0.7:
+        ops_.append(_apply(0, y, rng.randrange(0, n), None, top=rng.random() < 0.8))
+    ops_.append(_apply(0, x, a2, b2 if rng.random() < 0.7 else None, top=rng.random() < 0.8))
+    bounds = sorted({0, a1, b1, a2, b2, n})
+    ra = rng.choice(bounds[:-1])
+    rb = rng.choice([b for b in bounds if b > ra])
+    sel = rng.choice([None, x, x, y])
+    ops_.append({'op': 'remove', 'r': 0, 'd': 0, 'ip': rng.random() < 0.7, 'st': sel, 'a': ra, 'b': rb})
+    return ops_
+
+
 def pick(rng, prop):
     x = rng.random()
     name = rng.choice(NAMES)
     gen = stacked_then_mirror_concat(rng)
     rich = rich_value(rng)
     ror = restart_overlay_remove(rng)
-    if x < 0.22:
+    nes = nested_equal_spans_then_remove(rng)
+    if x < 0.20:
         return copy.deepcopy(SCENARIOS[name])
-    if x < 0.30:
+    if x < 0.28:
         return gen
-    if x < 0.42:
+    if x < 0.39:
         return rich
-    if x < 0.52:
+    if x < 0.48:
         return ror
+    if x < 0.56:
+        return nes
     return None
